@@ -44,7 +44,16 @@ func genRaceCase(r *simrt.Rand, c *Case, tier string) *Case {
 	if len(cs) > 1 {
 		val = cs[r.Intn(len(cs))]
 	}
-	switch r.Intn(8) {
+	switch r.Intn(9) {
+	case 8:
+		// infer on a target of several hundred bookings (code that goes parallel above a size)
+		c.Cmd = "infer"
+		var tg strings.Builder
+		accs := c.J.Accounts()
+		for k, n := 0, r.Range(520, 900); k < n && len(accs) > 0; k++ {
+			fmt.Fprintf(&tg, "2021-%02d-%02d \"%s %d\"\n%s Expenses:TBD %d.%02d CHF\n\n", 1+k%12, 1+k%28, descPool[r.Intn(10)], k%7, accs[r.Intn(len(accs))], r.Range(1, 900), r.Intn(100))
+		}
+		c.Files = map[string]string{"target.knut": tg.String()}
 	case 0, 1, 2, 3:
 		c.Cmd = "balance"
 		f := GenBalFlags(r, c.J, FlagOpts{Valued: val != "" && r.P(0.7), AlwaysTo: true})
@@ -132,6 +141,14 @@ func evalRace(c *Case) (*Violation, bool) {
 		}
 	}
 	argv := c.argv(filepath.Join(dir, c.L.Main()))
+	if c.Cmd == "infer" {
+		for name, txt := range c.Files {
+			if err := os.WriteFile(filepath.Join(dir, name), []byte(txt), 0o644); err != nil {
+				panic(InfraError{err.Error()})
+			}
+		}
+		argv = []string{"infer", "-t", filepath.Join(dir, c.L.Main()), filepath.Join(dir, "target.knut")}
+	}
 	for i, procs := range []int{4, 16, 1} {
 		seed := uint64(c.N) + uint64(i)*7919
 		_, se, code, err := runRace(bin, dir, argv, seed, procs)
